@@ -370,7 +370,20 @@ func (e *Env) RunWriters(cfg WCfg) *WHist {
 		e.Describe("%s", c.String())
 	}
 
+	if cfg.CloseHow == 3 {
+		rig.Probe.OnActive = func(ctx netty.ActiveContext) {
+			h.closeBegin(e)
+			ctx.Close(cfg.CloseErr)
+			h.closeEnd(e)
+			for _, c := range posts[0] {
+				h.invoke(c) // issued right after Close returned, still inside the active event
+			}
+		}
+	}
 	doClose := func(who int) {
+		if cfg.CloseHow == 3 {
+			return
+		}
 		h.closeBegin(e)
 		switch cfg.CloseHow {
 		case 1:
